@@ -758,7 +758,7 @@ func c15parse(cfg [][]string) c15conf {
 func (cf c15conf) measures() []types.Measure {
 	if cf.allRows {
 		return []types.Measure{{Expr: "MATCH_NUMBER()", Alias: "mn"}, {Expr: "CLASSIFIER()", Alias: "cls"},
-			{Expr: "COUNT(*)", Alias: "n"}, {Expr: "SUM(id)", Alias: "ids"}}
+			{Expr: "COUNT(*)", Alias: "n"}, {Expr: "SUM(id)", Alias: "ids"}, {Expr: "PREV(id)", Alias: "pid"}, {Expr: "NEXT(id)", Alias: "nid"}}
 	}
 	return []types.Measure{{Expr: "MATCH_NUMBER()", Alias: "mn"}, {Expr: "FIRST(id)", Alias: "fid"}, {Expr: "LAST(id)", Alias: "lid"},
 		{Expr: "COUNT(*)", Alias: "n"}, {Expr: "SUM(id)", Alias: "ids"}, {Expr: "SUM(v)", Alias: "sv"},
@@ -878,7 +878,7 @@ func c15strTok(v interface{}) string {
 // c15line renders one output row of the engine / the sink.
 func c15line(cf c15conf, r map[string]interface{}) []string {
 	if cf.allRows {
-		return []string{"r", c15strTok(r["p"]), c15numTok(r["mn"]), c15numTok(r["id"]), c15clsTok(r["cls"]), c15numTok(r["n"]), c15numTok(r["ids"])}
+		return []string{"r", c15strTok(r["p"]), c15numTok(r["mn"]), c15numTok(r["id"]), c15clsTok(r["cls"]), c15numTok(r["n"]), c15numTok(r["ids"]), c15numTok(r["pid"]), c15numTok(r["nid"])}
 	}
 	return []string{"m", c15strTok(r["pk"]), c15numTok(r["mn"]), c15numTok(r["fid"]), c15numTok(r["lid"]), c15numTok(r["n"]), c15numTok(r["ids"]), c15numTok(r["sv"]), c15clsTok(r["cls"])}
 }
